@@ -16,6 +16,28 @@ c = subprocess.run([V + "/bin/lowcheck", "-prop", "all"], env=dict(ENV, VERIF_DI
 bad = [l for l in (c.stdout + c.stderr).splitlines() if l.startswith(("VIOLATED", "UNDECIDED", "VIOLATION", "CHECKER-BROKEN", "panic"))]
 print("unchanged tree: exit", c.returncode, "-", "SILENT" if c.returncode == 0 and not bad else "ALARM")
 for l in bad[:20]: print("   ", l[:300])
+# rename-all variant: every parameter, local, captured variable and unexported field renamed (tools/renameall): silent
+import shutil, tempfile
+rb = subprocess.run(["go", "build", "-o", V + "/bin/renameall", "."], cwd=V + "/tools/renameall", env=ENV, capture_output=True, text=True)
+rn_bad = []
+if rb.returncode != 0:
+    rn_bad = ["renameall does not build: " + rb.stderr[-200:]]
+else:
+    tmp = tempfile.mkdtemp(prefix="lowrename_")
+    try:
+        shutil.copytree("/repo", tmp + "/repo", ignore=shutil.ignore_patterns(".git"))
+        rr = subprocess.run([V + "/bin/renameall", tmp + "/repo"], env=ENV, capture_output=True, text=True)
+        bb = subprocess.run(["go", "build", "./..."], cwd=tmp + "/repo", env=ENV, capture_output=True, text=True)
+        if rr.returncode != 0 or bb.returncode != 0:
+            rn_bad = ["renamed tree does not build: " + (rr.stderr + bb.stderr)[-300:]]
+        else:
+            os.makedirs(tmp + "/ev", exist_ok=True)
+            cc = subprocess.run([V + "/bin/lowcheck", "-repo", tmp + "/repo", "-prop", "all", "-noselftest"], env=dict(ENV, VERIF_DIR=tmp + "/ev"), capture_output=True, text=True)
+            rn_bad = [l[:260] for l in (cc.stdout + cc.stderr).splitlines() if l.startswith(("VIOLATED", "UNDECIDED", "panic"))]
+        print("rename-all variant (%s):" % rr.stdout.strip(), "SILENT" if not rn_bad else "ALARM")
+        for l in rn_bad[:10]: print("   ", l)
+    finally:
+        shutil.rmtree(tmp, ignore_errors=True)
 jobs = int(os.environ.get("JOBS", "10"))
 sd = sorted(glob.glob(V + "/seeded/C*-seed*"))
 bd = sorted(glob.glob(V + "/benign/C*-r*"))
@@ -45,4 +67,4 @@ except Exception as e:
     print("corpus:", cmis)
 print("seeds: %d, own check reports %d; LOST %s; gained %s" % (len(sd), sum(1 for d in sd if json.load(open(d + "/meta.json"))["property"] in res[os.path.basename(d)]["props"]), lost, gained))
 print("benign: %d, silent %d; NEW FALSE ALARMS %s; now silent %s" % (len(bd), sum(1 for d in bd if not res[os.path.basename(d)]["props"] and not res[os.path.basename(d)].get("error")), newfa, fixedfa))
-sys.exit(1 if (bad or lost or newfa or cmis or c.returncode != 0) else 0)
+sys.exit(1 if (bad or lost or newfa or cmis or rn_bad or c.returncode != 0) else 0)
